@@ -13,7 +13,7 @@ func init() {
 }
 
 func checkC10(r *Run) {
-	r.Explain = "Does NOT decide the headline (no duplication, in-order delivery, behaviour under lapping: these quantify over interleavings of atomic operations). Decides the sequential preconditions every schedule relies on: A19 nothing reachable from diode.Writer.Write (VTA call graph, module functions) takes a lock, waits, sleeps, performs a channel operation or calls the wrapped writer — the producer cannot wait for the consumer or a slow writer; COPY the pointer published to the ring designates a local whose value is append(<pool buffer>, p...), never p itself (zerolog recycles p after Write returns); SINGLE exactly one go statement starts poll and Next/TryNext are reached only from it (deliveries happen one at a time); A13 the copy is returned to bufPool only after the wrapped Write returned and is not touched afterwards; A14 ring fields are accessed only through sync/atomic and readIndex only by the consumer."
+	r.Explain = "Does NOT decide the headline (no duplication, in-order delivery, behaviour under lapping: these quantify over interleavings of atomic operations). Decides the sequential preconditions every schedule relies on: A19 nothing reachable from diode.Writer.Write (VTA call graph, module functions) takes a lock, waits, sleeps, performs a channel operation or calls the wrapped writer — the producer cannot wait for the consumer or a slow writer; COPY the pointer published to the ring designates a local whose value is append(<pool buffer>, p...), never p itself (zerolog recycles p after Write returns); SINGLE exactly one go statement starts poll and Next/TryNext are reached only from it (deliveries happen one at a time); A13 the copy is returned to bufPool only after the wrapped Write returned and is not touched afterwards; A14 ring fields are accessed only through sync/atomic and readIndex only by the consumer; TAKE the consumer empties a slot with a single atomic SwapPointer(slot, nil) and takes every decision (empty, stale, lapped, regular) and the delivered data from the very bucket that exchange returned (no peek-then-swap window)."
 	r.NotDec = "Ordering, no-duplication, 'byte-identical to exactly one earlier Write', behaviour when producers lap the consumer, alert counts: schedule-quantified, not decided by this family (would need a verified model of the ring algorithm)."
 	r.Assume = []string{"log.Println on the collision arm may block on stderr; it does not involve the wrapped writer (observation, not a C10 violation as stated)"}
 	r.Trusted = []string{"x/tools callgraph/vta"}
@@ -31,6 +31,8 @@ func checkC10(r *Run) {
 	ruleA13(r, p, map[string]bool{"diode": true}, "ab")
 	ruleA14(r, p, "A14", map[string]bool{diodesRel: true}, []string{"ManyToOne.writeIndex", "buffer[]"})
 	ruleConsumerPrivate(r, p)
+	ruleTakeAtomically(r, p, "TAKE")
+	r.Floor("TAKE", 2)
 	r.Floor("A19", 3)
 	r.Floor("COPY", 1)
 	r.Floor("SINGLE", 3)
@@ -106,6 +108,20 @@ func ruleCopyBeforePublish(r *Run, p *Prog, w *ssa.Function) {
 			}
 			okc = !fromParam && spreadIsParam
 			why = "published value = append(" + descr(ap.Call.Args[0]) + ", " + descr(ap.Call.Args[1]) + "...)"
+			// … on EVERY path to the publication: no path reaches Set without passing the copying store
+			if okc {
+				var copyStore ssa.Instruction
+				for _, ref := range referrersOf(al) {
+					if st, isSt := ref.(*ssa.Store); isSt && st.Addr == ssa.Value(al) && st.Val == ssa.Value(ap) {
+						copyStore = st
+					}
+				}
+				skip, _ := pathExists(w, nil, func(x ssa.Instruction) bool { return x == ssa.Instruction(set) }, func(x ssa.Instruction) bool { return x == copyStore }, nil)
+				if copyStore == nil || skip {
+					okc = false
+					why = "a path publishes the caller's own slice without copying it (the copy is conditional)"
+				}
+			}
 		} else if stored != nil {
 			why = "published value = " + descr(stored)
 		}
@@ -214,10 +230,11 @@ func checkC11(r *Run) {
 	ruleA20(r, p, "A20")
 	ruleA21(r, p, "A21")
 	ruleAlertWiring(r, p, "ALERT")
-	r.Floor("ALERT", 7)
+	ruleReaderAdvances(r, p, "ALERT")
+	r.Floor("ALERT", 9)
 	r.Floor("DRAIN", 2)
 	r.Floor("CLOSE", 3)
-	r.Floor("FATAL", 5)
+	r.Floor("FATAL", 6)
 	r.Floor("A20", 2)
 	r.Floor("A21", 2)
 }
